@@ -18,24 +18,36 @@ package aa
 //@   loop 1 decreases len(r) - iter(1)
 //@   ensures forall(k, 0, len(result), result[k] != nil)
 
+// resolveValues is used by Resolve's contract as a function of its receiver, its input and
+// the contents of the preamble and of the variables' names and values (reads clause: the
+// body touches no other heap field; that the body is deterministic in those is assumed:
+// it contains no map range, no package state and only deterministic library calls).
+// A value of the referenced variable that refers to that variable itself is reported as an
+// error: while the loops go on, no value handled so far contains "@{<name>}" (invariants).
 // resolveValues: no index out of range on the regexp match, errors are returned; the
 // recursion has no decreasing measure (two variables that refer to each other recurse for
 // ever): "decreases 0" records that obligation, which is a known finding.
 //@ func (*AppArmorProfileFile).resolveValues
 //@   opt prop=C13
+//@   pure
+//@   reads AppArmorProfileFile.Preamble, Variable.Name, Variable.Values
 //@   assigns nothing
 //@   decreases 0
-//@   loop 1 invariant true
-
-//@   loop 2 invariant true
+//@   loop 1 invariant forall(k, 0, iter(1), imp(ranged(1)[k].Name == varname, forall(j, 0, len(ranged(1)[k].Values), !ext("strings.Contains", ranged(1)[k].Values[j], concat(concat(Kind.Tok(VARIABLE), varname), "}")))))
+//@   loop 2 invariant forall(k, 0, iter(1), imp(ranged(1)[k].Name == varname, forall(j, 0, len(ranged(1)[k].Values), !ext("strings.Contains", ranged(1)[k].Values[j], concat(concat(Kind.Tok(VARIABLE), varname), "}")))))
+//@   loop 2 invariant forall(j, 0, iter(2), !ext("strings.Contains", vrbl.Values[j], concat(concat(Kind.Tok(VARIABLE), varname), "}")))
 
 // Resolve: every preamble rule that is not a variable is kept, no rule is invented, every
 // definition is kept, an append (+=) to a name with no earlier definition is kept (it
 // extends a variable of an include), a second definition of a name is an error, nothing panics;
-// a profile without attachments gets none (no value leaks from one profile to the next).
+// a profile without attachments gets none (no value leaks from one profile to the next);
+// when Resolve succeeds the new attachments of every profile are exactly the strings that
+// resolveValues yields for that profile's own old attachments: none is lost, none comes
+// from elsewhere (profiles of the file are assumed pairwise distinct objects).
 //@ func (*AppArmorProfileFile).Resolve
 //@   opt prop=C13
 //@   requires forall(k, 0, len(f.Profiles), f.Profiles[k] != nil)
+//@   requires forall2(a, b, 0 <= a && a < b && b < len(f.Profiles), f.Profiles[a] != f.Profiles[b])
 //@   assigns f.Preamble, Variable.Values, Profile.Attachments
 //@   loop 1 invariant iter(1) <= len(old(f.Preamble)) && len(preamble) <= iter(1) && f.Preamble == old(f.Preamble)
 //@   loop 1 invariant forall_str(x, imp(has(seen, x), seen[x] != nil))
@@ -49,11 +61,22 @@ package aa
 //@   loop 2 invariant true
 //@   loop 3 invariant true
 //@   loop 4 invariant forall(k, 0, len(f.Profiles), imp(len(old(f.Profiles[k].Attachments)) == 0, len(f.Profiles[k].Attachments) == 0))
+//@   loop 4 invariant forall(k, 0, iter(4), forall(j, 0, len(old(f.Profiles[k].Attachments)), forall_str(x, imp(mem(first(AppArmorProfileFile.resolveValues(f, old(f.Profiles[k].Attachments)[j])), x), mem(f.Profiles[k].Attachments, x)))))
+//@   loop 4 invariant forall(k, 0, iter(4), forall_str(x, imp(mem(f.Profiles[k].Attachments, x), exists(j, 0, len(old(f.Profiles[k].Attachments)), mem(first(AppArmorProfileFile.resolveValues(f, old(f.Profiles[k].Attachments)[j])), x)))))
+//@   loop 4 invariant forall(k, iter(4), len(f.Profiles), f.Profiles[k].Attachments == old(f.Profiles[k].Attachments))
 //@   loop 5 invariant forall(k, 0, len(f.Profiles), imp(len(old(f.Profiles[k].Attachments)) == 0, len(f.Profiles[k].Attachments) == 0))
 //@   loop 5 invariant imp(len(old(profile.Attachments)) == 0, len(attachments) == 0)
+//@   loop 5 invariant iter(5) <= len(old(profile.Attachments))
+//@   loop 5 invariant forall(k, 0, iter(4), forall(j, 0, len(old(f.Profiles[k].Attachments)), forall_str(x, imp(mem(first(AppArmorProfileFile.resolveValues(f, old(f.Profiles[k].Attachments)[j])), x), mem(f.Profiles[k].Attachments, x)))))
+//@   loop 5 invariant forall(k, 0, iter(4), forall_str(x, imp(mem(f.Profiles[k].Attachments, x), exists(j, 0, len(old(f.Profiles[k].Attachments)), mem(first(AppArmorProfileFile.resolveValues(f, old(f.Profiles[k].Attachments)[j])), x)))))
+//@   loop 5 invariant forall(k, iter(4), len(f.Profiles), f.Profiles[k].Attachments == old(f.Profiles[k].Attachments))
+//@   loop 5 invariant forall(j, 0, iter(5), forall_str(x, imp(mem(first(AppArmorProfileFile.resolveValues(f, old(profile.Attachments)[j])), x), mem(attachments, x))))
+//@   loop 5 invariant forall_str(x, imp(mem(attachments, x), exists(j, 0, iter(5), mem(first(AppArmorProfileFile.resolveValues(f, old(profile.Attachments)[j])), x))))
 //@   ensures imp(result == nil, forall(k, 0, len(old(f.Preamble)), imp(!typeIs(old(f.Preamble)[k], "*Variable"), mem(f.Preamble, old(f.Preamble)[k]))))
 //@   ensures imp(result == nil, forall_ref(x, imp(mem(f.Preamble, x), mem(old(f.Preamble), x))))
 //@   ensures imp(result == nil, forall(k, 0, len(old(f.Preamble)), imp((typeIs(old(f.Preamble)[k], "*Variable") && as(old(f.Preamble)[k], "*Variable").Define), mem(f.Preamble, old(f.Preamble)[k]))))
 //@   ensures imp(result == nil, forall(j, 0, len(old(f.Preamble)), forall(i, 0, j, imp((typeIs(old(f.Preamble)[i], "*Variable") && as(old(f.Preamble)[i], "*Variable").Define) && (typeIs(old(f.Preamble)[j], "*Variable") && as(old(f.Preamble)[j], "*Variable").Define), as(old(f.Preamble)[i], "*Variable").Name != as(old(f.Preamble)[j], "*Variable").Name))))
 //@   ensures imp(result == nil, forall(k, 0, len(old(f.Preamble)), imp(typeIs(old(f.Preamble)[k], "*Variable") && !as(old(f.Preamble)[k], "*Variable").Define && !exists(i, 0, k, (typeIs(old(f.Preamble)[i], "*Variable") && as(old(f.Preamble)[i], "*Variable").Define) && as(old(f.Preamble)[i], "*Variable").Name == as(old(f.Preamble)[k], "*Variable").Name), mem(f.Preamble, old(f.Preamble)[k]))))
 //@   ensures imp(result == nil, forall(k, 0, len(f.Profiles), imp(len(old(f.Profiles[k].Attachments)) == 0, len(f.Profiles[k].Attachments) == 0)))
+//@   ensures imp(result == nil, forall(k, 0, len(f.Profiles), forall(j, 0, len(old(f.Profiles[k].Attachments)), forall_str(x, imp(mem(first(AppArmorProfileFile.resolveValues(f, old(f.Profiles[k].Attachments)[j])), x), mem(f.Profiles[k].Attachments, x))))))
+//@   ensures imp(result == nil, forall(k, 0, len(f.Profiles), forall_str(x, imp(mem(f.Profiles[k].Attachments, x), exists(j, 0, len(old(f.Profiles[k].Attachments)), mem(first(AppArmorProfileFile.resolveValues(f, old(f.Profiles[k].Attachments)[j])), x))))))
